@@ -4,7 +4,7 @@ CONSTANTS
   MinWords = 0
   MaxWords = 3
   Must = {}
-  OptSet <- OptsAll
+  OptSet <- OptsNoBE
   PathAlpha <- PathAlphaDef
   PathLen = 0
   StratLen = 0
